@@ -67,8 +67,47 @@ def parseOp {V : Type} (io : ValIO V) (s : String) : Option (Op V) :=
   | ["W"] => some .selfMerge
   | _ => none
 
-def parseOps {V : Type} (io : ValIO V) (s : String) : Option (List (Op V)) :=
-  if s == "-" then some [] else (s.splitOn ";").mapM (parseOp io)
+/-- Operations of the line protocol: a model operation, or a call whose argument refers to an element
+of the same table (`IV IK IKV GK RK NK NT`, see harness/hashtable_harness.cpp).  The latter have value
+semantics - the argument is read first - so they are resolved against the current state into a model
+operation (`none` = the addressed element does not exist: nothing happens, output `u`). -/
+inductive DOp (V : Type) where
+  | plain (op : Op V)
+  | insFrom (k k2 : List Nat)
+  | insKey (i : Nat) (v : V)
+  | insKeyVal (i j : Nat)
+  | getKey (i : Nat)
+  | remKey (i : Nat)
+  | renFromKey (i : Nat) (to : List Nat)
+  | renToKey (i : Nat) (frm : List Nat)
+
+def parseDOp {V : Type} (io : ValIO V) (s : String) : Option (DOp V) :=
+  match s.splitOn "/" with
+  | ["IV", k, k2] => do let k ← parseNats k; let k2 ← parseNats k2; pure (.insFrom k k2)
+  | ["IK", i, v] => do let i ← i.toNat?; let v ← io.parse v; pure (.insKey i v)
+  | ["IKV", i, j] => do let i ← i.toNat?; let j ← j.toNat?; pure (.insKeyVal i j)
+  | ["GK", i] => do let i ← i.toNat?; pure (.getKey i)
+  | ["RK", i] => do let i ← i.toNat?; pure (.remKey i)
+  | ["NK", i, k] => do let i ← i.toNat?; let k ← parseNats k; pure (.renFromKey i k)
+  | ["NT", i, k] => do let i ← i.toNat?; let k ← parseNats k; pure (.renToKey i k)
+  | _ => (parseOp io s).map .plain
+
+/-- `look k` = value stored under `k`, `at i` = live entry of slot `i` (both in the current state). -/
+def resolve {V : Type} (hasValue : Bool) (look : List Nat → Option V) (at_ : Nat → Option (List Nat × V)) :
+    DOp V → Option (Op V)
+  | .plain op => some op
+  | .insFrom k k2 => if hasValue then (look k2).map fun v => .insert k v else none
+  | .insKey i v => (at_ i).map fun e => .insert e.1 v
+  | .insKeyVal i j =>
+    if hasValue then (at_ i).bind fun e => (at_ j).map fun e2 => .insert e.1 e2.2
+    else (at_ i).map fun e => .insert e.1 e.2
+  | .getKey i => if hasValue then (at_ i).map fun e => .get e.1 else none
+  | .remKey i => (at_ i).map fun e => .remove e.1
+  | .renFromKey i to => (at_ i).map fun e => .rename e.1 to
+  | .renToKey i frm => (at_ i).map fun e => .rename frm e.1
+
+def parseOps {V : Type} (io : ValIO V) (s : String) : Option (List (DOp V)) :=
+  if s == "-" then some [] else (s.splitOn ";").mapM (parseDOp io)
 
 def showOut {V : Type} (io : ValIO V) : Out V → String
   | .unit => "u"
@@ -96,25 +135,32 @@ def showSpec {V : Type} (io : ValIO V) (sp : Spec V) : String :=
   toString sp.cap ++ "#" ++ joinOr ";" (sp.slots.map (showSlot io))
 
 /-- Run the layout model step by step; a fault ends the record list with `fault`. -/
-def runLayout {V : Type} [Inhabited V] (io : ValIO V) : HT V → List (Op V) → List String
+def runLayout {V : Type} [Inhabited V] (io : ValIO V) (hv : Bool) : HT V → List (DOp V) → List String
   | _, [] => []
-  | s, op :: ops =>
-    match step Hash.hashChar Hash.ordChar s op with
-    | none => ["fault"]
-    | some (s', o) => (showOut io o ++ "#" ++ showHT io s') :: runLayout io s' ops
+  | s, dop :: ops =>
+    let look := fun k => match lookup Hash.hashChar s k with | some (some r) => some r.2 | _ => none
+    match resolve hv look (lookupIdx s) dop with
+    | none => ("u#" ++ showHT io s) :: runLayout io hv s ops
+    | some op =>
+      match step Hash.hashChar Hash.ordChar s op with
+      | none => ["fault"]
+      | some (s', o) => (showOut io o ++ "#" ++ showHT io s') :: runLayout io hv s' ops
 
-def runSpec {V : Type} [Inhabited V] (io : ValIO V) : Spec V → List (Op V) → List String
+def runSpec {V : Type} [Inhabited V] (io : ValIO V) (hv : Bool) : Spec V → List (DOp V) → List String
   | _, [] => []
-  | sp, op :: ops =>
-    let r := Spec.step Hash.ordChar sp op
-    (showOut io r.2 ++ "#" ++ showSpec io r.1) :: runSpec io r.1 ops
+  | sp, dop :: ops =>
+    match resolve hv (fun k => (Spec.lookup sp k).map (·.2)) (Spec.lookupIdx sp) dop with
+    | none => ("u#" ++ showSpec io sp) :: runSpec io hv sp ops
+    | some op =>
+      let r := Spec.step Hash.ordChar sp op
+      (showOut io r.2 ++ "#" ++ showSpec io r.1) :: runSpec io hv r.1 ops
 
-def handleKind {V : Type} [Inhabited V] (io : ValIO V) (op : String) (ops : String) : String :=
+def handleKind {V : Type} [Inhabited V] (io : ValIO V) (hv : Bool) (op : String) (ops : String) : String :=
   match parseOps io ops with
   | none => "bad-op"
   | some l =>
-    if op == "htrun" then joinOr "|" (runLayout io HT.empty l)
-    else if op == "htspec" then joinOr "|" (runSpec io Spec.empty l)
+    if op == "htrun" then joinOr "|" (runLayout io hv HT.empty l)
+    else if op == "htspec" then joinOr "|" (runSpec io hv Spec.empty l)
     else "bad-op"
 
 /-! ### allocation ledger (C16) -/
@@ -186,6 +232,7 @@ def parseTreeOp (s : String) : Option TreeOp :=
   | ["a", d, s] => do let d ← parsePath d; let s ← parsePath s; pure (.assign d s)
   | ["p", d, s] => do let d ← parsePath d; let s ← parsePath s; pure (.merge d s)
   | ["q", d, s] => do let d ← parsePath d; let s ← parsePath s; pure (.mergeMove d s)
+  | ["i", d, k, s] => do let d ← parsePath d; let k ← parseNats k; let s ← parsePath s; pure (.insertFrom d k s)
   | _ => none
 
 open Qentem.HashTree in
@@ -209,8 +256,8 @@ def handle (op : String) (args : List String) : String :=
     match parseNats u with
     | some k => toString (Hash.hashChar k)
     | none => "bad-op"
-  | _, ["A", ops] => handleKind natIO op ops
-  | _, ["L", ops] => handleKind unitIO op ops
+  | _, ["A", ops] => handleKind natIO true op ops
+  | _, ["L", ops] => handleKind unitIO false op ops
   | _, _ => "bad-op"
 
 end Qentem.Driver.HashTable
